@@ -284,11 +284,19 @@ Proof.
   { intros i0 idx' E. apply parse_packed_put; [exact Hi|].
     clear -E. generalize idx. clear. induction idx as [|i idx IH]; [cbn; lia|].
     cbn [map concat length]. rewrite app_length. pose proof (put_uvarint_length i). lia. }
-  destruct tx as [|t0 tx]; destruct idx as [|i0 idx];
-    cbn [app map fld_wire fold_left iw_apply bind iw_tx iw_idx iw_type_id];
-    try rewrite (Hpk i0 idx eq_refl); cbn [bind app iw_tx iw_idx iw_type_id];
-    change (utf8_valid type_id_indx) with true; cbv iota;
-    cbn [iw_type_id]; rewrite bytes_eqb_refl; reflexivity.
+  destruct idx as [|i0 idx].
+  - destruct tx as [|t0 tx];
+      cbn [app map fld_wire fold_left iw_apply bind iw_tx iw_idx iw_type_id];
+      change (utf8_valid type_id_indx) with true; cbv iota; cbn [iw_type_id bind];
+      rewrite bytes_eqb_refl; reflexivity.
+  - pose proof (Hpk i0 idx eq_refl) as Hpk'. clear Hpk.
+    set (pk := concat (map put_uvarint (i0 :: idx))) in *.
+    destruct tx as [|t0 tx].
+    all: cbn [app map fld_wire fold_left iw_apply bind iw_tx iw_idx iw_type_id].
+    all: rewrite Hpk'.
+    all: cbn [bind app iw_tx iw_idx iw_type_id iw_apply].
+    all: change (utf8_valid type_id_indx) with true; cbv iota; cbn [iw_type_id bind].
+    all: rewrite bytes_eqb_refl; reflexivity.
 Qed.
 
 (* ---------- cross recognition ---------- *)
@@ -297,7 +305,7 @@ Lemma iw_fold_last fs t acc p : utf8_valid t = true ->
   fold_left iw_apply (fs ++ [(3, WBytes t)]) acc = Ok p -> iw_type_id p = t.
 Proof.
   intros Hu. rewrite fold_left_app. cbn [fold_left iw_apply].
-  destruct (fold_left iw_apply fs acc) as [q| |]; cbn [bind]; try discriminate.
+  destruct (fold_left iw_apply fs acc) as [q| |]; cbn [bind iw_apply]; try discriminate.
   rewrite Hu. intros H. inversion H. reflexivity.
 Qed.
 
@@ -305,7 +313,7 @@ Lemma btp_fold_last fs t acc p : utf8_valid t = true ->
   fold_left btp_apply (fs ++ [(3, WBytes t)]) acc = Ok p -> btp_type_id p = t.
 Proof.
   intros Hu. rewrite fold_left_app. cbn [fold_left btp_apply].
-  destruct (fold_left btp_apply fs acc) as [q| |]; cbn [bind]; try discriminate.
+  destruct (fold_left btp_apply fs acc) as [q| |]; cbn [bind btp_apply]; try discriminate.
   rewrite Hu. intros H. inversion H. reflexivity.
 Qed.
 
@@ -360,8 +368,7 @@ Proof.
       rewrite Forall_forall in Hall. destruct (Hall b Hin) as (_ & (Hd & _) & _). apply Nat.eqb_eq in Hb.
       destruct (b_data b); [congruence|cbn in Hb; lia]. }
   f_equal. unfold btx_flds. rewrite !map_app, !concat_app, enc_bytes_field_flds. f_equal. f_equal.
-  - rewrite map_map. f_equal.
-  - cbn. reflexivity.
+  rewrite map_map. reflexivity.
 Qed.
 
 Lemma btp_fold_blobs : forall blobs tx acc_blobs tid, Forall blob_wire_ok blobs ->
@@ -370,7 +377,7 @@ Lemma btp_fold_blobs : forall blobs tx acc_blobs tid, Forall blob_wire_ok blobs 
 Proof.
   induction blobs as [|b blobs IH]; intros tx acc tid H; [cbn; rewrite app_nil_r; reflexivity|].
   apply Forall_cons_iff in H as [Hb H]. cbn [map fld_wire fold_left btp_apply bind].
-  unfold marshal_blob at 1. rewrite blob_proto_round_trip by (apply blob_to_proto_ok, Hb).
+  unfold marshal_blob at 2. rewrite blob_proto_round_trip by (apply blob_to_proto_ok, Hb).
   cbn [bind btp_tx btp_blobs btp_type_id]. rewrite IH by exact H. rewrite <- app_assoc. reflexivity.
 Qed.
 
